@@ -28,9 +28,18 @@ ModeOk(q, o, conj) ==
     [] OTHER ->
          /\ o.s = "ok" /\ SeqSet(o.docs) = MatchSet(q, conj) /\ Len(o.docs) = Cardinality(SeqSet(o.docs))
          /\ o.l = "ok" /\ o.ldocs = o.docs /\ o.lerrs = <<>>
+\* the same text given to a QueryParser without any default field: a query whose words all get a field
+\* (their own or a group's) means the same; any other is refused for want of a default field
+NoDefOk(q, o) ==
+  CASE q[1] = "ex" -> ModeOk(q, o, FALSE)
+    [] Unscoped(q, "") ->
+         /\ o.s = "err" /\ o.err = "NoDefaultFieldDeclared"
+         /\ o.l = "ok" /\ "NoDefaultFieldDeclared" \in SeqSet(o.lerrs)
+    [] OTHER -> ModeOk(q, o, FALSE)
 TMeaning ==
   /\ Ev.ev = "meaning"
-  /\ (\A j \in 1..Len(Ev.obs) : ModeOk(Ev.q, Ev.obs[j].or, FALSE) /\ ModeOk(Ev.q, Ev.obs[j].and, TRUE)) = TRUE
+  /\ (\A j \in 1..Len(Ev.obs) : /\ ModeOk(Ev.q, Ev.obs[j].or, FALSE) /\ ModeOk(Ev.q, Ev.obs[j].and, TRUE)
+                                  /\ ("nodef" \in DOMAIN Ev.obs[j] => NoDefOk(Ev.q, Ev.obs[j].nodef))) = TRUE
 
 \* one nest pre^n x post^n (closed = with its closing parentheses) - only recorded once the nesting
 \* limit is in the code: nothing crashes, and the limit is where Grammar!NestingLimit says
